@@ -25,6 +25,9 @@
 //!        causes any connection error.
 //!  * `C04-old-keys-dropped-early` / `C04-old-keys-kept-too-long`   RFC 9001 6.1 / 6.5: the previous receive keys stay
 //!        until a packet of the new generation has been opened, and are gone once timeouts are serviced three PTOs later.
+//!  * `C04-local-update-before-ack`       RFC 9001 6.1: a local update (forced or routine) takes effect only if no key
+//!        update took place before or a packet we sent in the current key phase was acknowledged (ledger of the generator's
+//!        own `send` / `ackd` requests).
 //!  * `C04-acked-with-old-keys`           RFC 9001 6.2: after a packet of generation g was processed nothing is sent with
 //!        keys older than g.
 use std::collections::{BTreeMap, BTreeSet};
@@ -49,6 +52,8 @@ struct View {
     prev: Option<(u64, Option<u64>, bool)>,
     next: Option<u64>,
     swk: u64,
+    npn: u64,
+    la: Option<u64>,
     rx: u64,
     authed: u64,
     fail: u64,
@@ -89,6 +94,8 @@ fn parse(resp: &str) -> Option<View> {
             }
             "next" => v.next = opt(x)?,
             "swk" => v.swk = x.parse().ok()?,
+            "npn" => v.npn = x.parse().ok()?,
+            "la" => v.la = opt(x)?,
             "rx" => v.rx = x.parse().ok()?,
             "authed" => v.authed = x.parse().ok()?,
             "fail" => v.fail = x.parse().ok()?,
@@ -99,7 +106,7 @@ fn parse(resp: &str) -> Option<View> {
             _ => return None,
         }
     }
-    (seen == 12).then_some(v)
+    (seen == 14).then_some(v)
 }
 
 /// the printed state without the response head
@@ -142,6 +149,15 @@ struct Sim<'a> {
     /// time at which the first packet of our current generation was opened (None: none yet)
     first_new_gen_at: Option<u64>,
     updates: u32,
+    /// packets we sent so far (= the packet number of the next one: the executor never skips a number)
+    sends: u64,
+    /// number of packets sent before the latest key update of either side: packets numbered from here on are the
+    /// ones "sent with keys of the current key phase"
+    phase_first: u64,
+    /// highest packet number of ours that reached the peer / that an ACK of the peer reported to us
+    peer_got_pn: Option<u64>,
+    acked_max: Option<u64>,
+    blocked_updates: u32,
     hostile_after_update: bool,
     dead: bool,
 }
@@ -258,6 +274,7 @@ impl<'a> Sim<'a> {
         // ---- bookkeeping of our generation
         if a.cur != b.cur {
             self.updates += 1;
+            self.phase_first = self.sends;
             // reached through the peer's packet
             self.remote_update_unanswered = true;
             self.first_new_gen_at = Some(self.t);
@@ -266,6 +283,28 @@ impl<'a> Sim<'a> {
         }
         if a.st != "est" {
             self.conforming = false;
+        }
+    }
+
+    /// RFC 9001 6.1: "An endpoint MUST NOT initiate a subsequent key update unless it has received an acknowledgment for a
+    /// packet that was sent protected with keys from the current key phase."  Called when a LOCAL update took effect.
+    fn local_update_took_effect(&mut self, line: &str, a: &View) {
+        if self.updates > 0 && self.acked_max.map_or(true, |x| x < self.phase_first) {
+            self.fail(
+                "C04-local-update-before-ack",
+                format!("[{line}] started a key update (now generation {:?}) although {} key update(s) took place before and no packet sent in the current key phase (packet numbers >= {}) was acknowledged (largest acknowledged: {:?}): [{a:?}]", a.cur, self.updates, self.phase_first, self.acked_max),
+            );
+        }
+        self.updates += 1;
+        self.phase_first = self.sends;
+        self.remote_update_unanswered = false;
+        self.first_new_gen_at = None;
+    }
+
+    /// an ACK frame of the peer for our packet `pn` arrives
+    fn ackd(&mut self, pn: u64) {
+        if self.exec(&format!("keyupd ackd {pn}")).is_some() && pn < self.sends {
+            self.acked_max = Some(self.acked_max.map_or(pn, |x| x.max(pn)));
         }
     }
 
@@ -282,6 +321,15 @@ impl<'a> Sim<'a> {
 
     fn deliver(&mut self, s: Sent) {
         self.rx(s.pn, parity(s.gen), Some(s.gen), false, true);
+    }
+
+    /// the peer's packets carry ACK frames for what it received from us
+    fn maybe_ack(&mut self, rng: &mut Rng) {
+        if let Some(pn) = self.peer_got_pn {
+            if !self.dead && self.v.st == "est" && self.acked_max.map_or(true, |a| a < pn) && rng.chance(1, 2) {
+                self.ackd(pn);
+            }
+        }
     }
 
     fn local_send(&mut self, rng: &mut Rng) {
@@ -306,15 +354,20 @@ impl<'a> Sim<'a> {
             return;
         }
         if a.cur != b.cur {
-            // routine update
-            self.updates += 1;
-            self.remote_update_unanswered = false;
-            self.first_new_gen_at = None;
+            // routine update (takes place before the packet is built)
+            self.local_update_took_effect("keyupd send", &a);
+        }
+        let pn = self.sends;
+        self.sends += 1;
+        if a.npn != self.sends {
+            self.fail("keyupd-parse", format!("the executor's next packet number {} is not the number of packets sent {}", a.npn, self.sends));
+            return;
         }
         self.last_sent_gen = Some(g);
         self.remote_update_unanswered = false;
         // does it reach the peer?
         if rng.chance(3, 4) {
+            self.peer_got_pn = Some(pn);
             self.peer_saw_gen = Some(self.peer_saw_gen.map_or(g, |x| x.max(g)));
             if let Some(owed) = self.owe_ack_for.take() {
                 if owed == self.peer_gen {
@@ -332,9 +385,9 @@ impl<'a> Sim<'a> {
     fn local_update(&mut self) {
         let Some((b, a)) = self.exec("keyupd update") else { return };
         if a.cur != b.cur {
-            self.updates += 1;
-            self.remote_update_unanswered = false;
-            self.first_new_gen_at = None;
+            self.local_update_took_effect("keyupd update", &a);
+        } else if b.st == "est" && b.prev.is_none() {
+            self.blocked_updates += 1;
         }
     }
 
@@ -362,7 +415,7 @@ pub fn keyupd(rng: &mut Rng, r: &mut Runner, maxops: usize) {
         let bad = [
             "keyupd rx", "keyupd rx 1 2 0", "keyupd rx 1073741824 0 0", "keyupd rx 1 0 4294967296", "keyupd rx 1 0 0 rsv x",
             "keyupd rx -1 0 0", "keyupd tick 1000000001", "keyupd tick", "keyupd env 1 2", "keyupd frob", "keyupd", "keyupd update now",
-            "keyupd send 1", "keyupd timeout 3", "keyupd rx 1 0 forgedx",
+            "keyupd send 1", "keyupd timeout 3", "keyupd rx 1 0 forgedx", "keyupd ackd", "keyupd ackd 0", "keyupd ackd x",
         ];
         for _ in 0..1 + rng.below(4) {
             let l = *rng.pick(&bad);
@@ -402,6 +455,11 @@ pub fn keyupd(rng: &mut Rng, r: &mut Runner, maxops: usize) {
         remote_update_unanswered: false,
         first_new_gen_at: None,
         updates: 0,
+        sends: 0,
+        phase_first: 0,
+        peer_got_pn: None,
+        acked_max: None,
+        blocked_updates: 0,
         hostile_after_update: false,
         dead: false,
     };
@@ -417,7 +475,10 @@ pub fn keyupd(rng: &mut Rng, r: &mut Runner, maxops: usize) {
             0..=29 if !closed && s.conforming => {
                 let p = s.peer_send(rng);
                 match rng.below(10) {
-                    0..=6 => s.deliver(p),
+                    0..=6 => {
+                        s.deliver(p);
+                        s.maybe_ack(rng);
+                    }
                     7 | 8 => s.undelivered.push(p), // delayed (or lost)
                     _ => {
                         // duplicated by the network
@@ -464,7 +525,17 @@ pub fn keyupd(rng: &mut Rng, r: &mut Runner, maxops: usize) {
                     s.timeout();
                 }
             }
-            70..=73 => s.timeout(),
+            70..=72 => s.timeout(),
+            73 => {
+                if s.sends > 0 && rng.chance(3, 4) {
+                    let pn = rng.below(s.sends);
+                    s.ackd(pn);
+                } else {
+                    // acknowledges a packet that was never sent: refused by the executor (bad-op)
+                    let line = format!("keyupd ackd {}", s.sends + rng.below(3));
+                    s.r.op(&line);
+                }
+            }
             // ---- replay of a genuine packet that was sent earlier (any generation)
             74..=80 if !s.sent.is_empty() => {
                 let p = *rng.pick(&s.sent);
@@ -582,4 +653,5 @@ pub fn keyupd(rng: &mut Rng, r: &mut Runner, maxops: usize) {
     if s.updates > 0 && s.hostile_after_update {
         s.r.nontrivial();
     }
+    let _ = s.blocked_updates;
 }
